@@ -7,25 +7,25 @@ TECH = "deterministic simulation with fault injection: seeded search over operat
 
 CLAIMED = {
  "C01": dict(section="5 C01", text="Seeded simulation of BDD-builder histories (1-4 logical callers on one builder, all orders, both cache kinds, tiny-to-shipped capacities, cache-forgetting / early-growth faults, controlled memory placement) against an independent 128-bit truth-table model; every result and, later, every old handle is read back by two independent walkers. Sampling evidence, not proof; right level because the property quantifies over histories and hidden cache/table state that only a controlled execution can steer.",
-             note="Trusted: the truth-table model (tt.rs, unit-tested), the two diagram walkers, the allocator seam. Bounds: bdd world <= 7 variables with an exact oracle; bddmid world 8-100 variables (rare runs: up to 131000) judged on a sampled sub-cube of 512 points with condition/exists/compose restricted to its 7 free variables; <= 310 operations per run; lists of up to 129 items. compose judged against its documented definition."),
+             note="Trusted: the truth-table model (tt.rs, unit-tested), the two diagram walkers, the allocator seam. Bounds: bdd world <= 7 variables with an exact oracle; bddmid world 8-100 variables (rare runs: up to 131000) judged on a sampled sub-cube of 512 points with condition/exists/compose restricted to its 7 free variables; <= 310 operations per run (one run in 300: a marathon of 30000-100000 operations on one builder; one in 400: a counter-period history with a quiet phase of 2^8 / 2^16 conditioning calls); lists of up to 129 items; partial models also built through set/unset histories. compose judged against its documented definition. Every check starts with a 15% (quick) / 20% (thorough) slice in a build without debug assertions and overflow checks."),
  "C02": dict(section="5 C02", text="Same simulated histories with a run-global function->pointer map, per-node shape checks, sub-diagram canonicity and end-of-run re-lookup of every live node; plus the real robin-hood table driven directly with simulator-chosen hash values (collision clusters, wrap-around, all-equal, pointer-like), growth at arbitrary instants, capacities 1..64 and the shipped 131072 with > 91750 keys. Sampling evidence.",
-             note="Trusted: truth-table model, set model of the table, allocator seam. Probe chains < 255 assumed (u8 probe length in the table). Beyond 7 variables (bddmid, bddbig) canonicity is judged structurally: reduced, ordered, regular high edges, no duplicate triple, every stored node found again, re-issue pointer-equal."),
+             note="Trusted: truth-table model, set model of the table, allocator seam. Probe chains < 255 assumed (u8 probe length in the table; a 60-million-node fill does not reach it). One structural table run in four goes through the public UniqueTable::get_or_insert with two-word elements whose FxHash collides or is 0 (hash preimages). Beyond 7 variables (bddmid, bddbig) canonicity is judged structurally: reduced, ordered, regular high edges, no duplicate triple, every stored node found again, re-issue pointer-equal."),
  "C16": dict(section="5 C16", text="The lossy cache driven directly with adversarial colliding hashes / all capacities / forced growth against a last-value map (only wrong values are violations), and twin execution: the same history on a lossy, fault-injected BDD builder and on a fault-free cache-everything twin must give identical canonical diagrams; likewise an SDD builder whose apply and ite caches forget at random against a fault-free twin. Sampling evidence.",
              note="Trusted: map model, structural signature function, allocator seam. A cache may always answer None. Twins are compared by structure where results are canonical (BDD, compressed SDD) and by function otherwise (uncompressed SDD, hash-identified SDD)."),
  "C09": dict(section="5 C09", text="Seeded simulation of decide/pop histories (1-3 logical callers, any variable and polarity, refused decisions followed by more work on the same solver) on the real SATSolver over random small CNFs, checked after every step against brute-force entailment over all <= 64 models, a clause-by-clause fixpoint check, a shadow stack for pop, and hash-vs-residual-formula injectivity. Sampling evidence; the space explored is the call schedule (this component has no cache or allocator dependence, so no fault kinds apply).",
-             note="Trusted: brute-force model enumeration (<= 10 variables), a DPLL oracle written for the harness (large instances: <= 140 variables, <= 300 clauses; implication ladders of up to 6000 rungs; sparse-wide instances), shadow stack. <= 120 calls. Hash clause asserted only while the prime product fits in 128 bits."),
+             note="Trusted: brute-force model enumeration (<= 10 variables), a DPLL oracle written for the harness (large instances: <= 140 variables, <= 300 clauses; implication ladders of up to 6000 rungs; sparse-wide instances), shadow stack. <= 120 calls (one small run in 1500: 150000-250000 calls on one solver; one in 1000: a counter-period history; hub formulas with watch lists of tens of entries; one 9-14-literal clause). Hash clause asserted at every size: exact while the prime product fits 128 bits, beyond that a coincidence modulo 2^128 is treated as impossible. One run in 5000: 20000-100000 variables with a sweep over all single-decision states."),
  "C15": dict(section="5 C15", text="Seeded simulation of CnfHasher push/decide/pop/hash histories (caller's partial model kept in step, also hashed with extra assignments) against a residual-formula reference (equal residual => equal hash; equal hash => equal residual while the prime product fits 128 bits), and of PartialModel / VarSet mutation histories against explicit sets; Cnf::new/eval/is_sat_partial/condition chains/brute-force wmc ride along as generated inputs checked against explicit assignment sets (for those clauses the simulator adds nothing beyond seeded generation). Sampling evidence.",
-             note="Trusted: explicit-set reference implementations in the harness. Bounds: <= 10 variables with exhaustive eval/wmc, large formulas (<= 60 variables, <= 90 clauses) with sampled eval/condition and no count; a 150-variable partial model and 200-label variable sets; <= 124 calls; exact dyadic / modular weights."),
+             note="Trusted: explicit-set reference implementations in the harness. Bounds: <= 10 variables with exhaustive eval/wmc, large formulas (<= 60 variables, <= 90 clauses) with sampled eval/condition and no count; a 150-variable partial model and 200-label variable sets; <= 124 calls; exact dyadic / modular weights; one large formula in eight has a 27-45-literal clause; equal VarSets must hash equally; the conditioned formula's own hasher is exercised; the 'only then' half also applies per residual whose prime product is bounded by 128 bits."),
  "C03": dict(section="5 C03", text="Seeded simulation of SDD-builder histories (1-4 logical callers on one CompressionSddBuilder; right-linear, left-linear, balanced and random vtrees with random leaf labelling; compression on and off; tiny-to-shipped unique tables; apply-/ite-cache forgetting and early growth; controlled placement) against the truth-table model, read back by an independent evaluator over elements / binary nodes / complement variants and by a second reader through node_iter(); old handles are re-read later. Sampling evidence.",
-             note="Trusted: truth-table model, the two SDD readers, allocator seam. Bounds: sdd world <= 7 variables (exact oracle), sddmid world 8-20 variables and balanced vtrees over 33000-70000 variables (sampled sub-cube); <= 160 operations; operands whose unfolded size exceeds a cap are not reused (rsdd's structural pointer ordering is exponential on deep shared diagrams; cost control only)."),
+             note="Trusted: truth-table model, the two SDD readers, allocator seam. Bounds: sdd world <= 7 variables (exact oracle), sddmid world 8-20 variables and balanced vtrees over 33000-70000 variables (sampled sub-cube); <= 160 operations (one compressing run in 300: 1500-6000 operations on one builder; one sddmid run in 200: decision nodes with 256-2048 elements built along two routes); clause / compile_cnf / read-only query operations; uncompressed operations are admitted by a per-kind work estimate and operands whose unfolded size exceeds a cap are not reused (rsdd's structural pointer ordering is exponential on deep shared diagrams; cost control only)."),
  "C04": dict(section="5 C04", text="The same simulated histories with compression on: every reachable decision node is audited from the truth tables of its elements against the vtree (primes non-false, disjoint, exhaustive, left variables only; subs right variables only and pairwise different; not trimmable), a run-global function->pointer map over all handles and all sub-diagrams decides canonicity, and every live node is looked up again at the end. Sampling evidence.",
              note="Trusted: truth-table model, vtree leaf sets read through the public VTree API. The library's is_compressed/is_trimmed are evaluated as a cross-check only (disagreements are counted, not reported). In the sddmid world only the structural and sound-from-samples parts of the statement are checked."),
  "C10": dict(section="5 C10", text="Seeded simulation of query histories: 1-4 logical callers interleave queries of different result types (eight semirings, evaluate, node count, (cached) semantic hash, bdd_fold, marginal MAP / MEU / branch-and-bound, smooth, condition) over BDD, SDD and top-down diagrams that share nodes, sub-diagrams and complements; each answer must equal the answer on a freshly built copy in a brand-new builder, and after every public call every scratch slot of every node in the builder (not only the roots) must be empty. Sampling evidence.",
-             note="Trusted: the fresh-copy construction (Shannon expansion from the truth table up to 7 variables; replay of the construction history in the fresh builder for 8-245 variables, smoothed diagrams and the top-down variant), exact weights. The oracle does not judge correctness of the fresh answer."),
+             note="Trusted: the fresh-copy construction (Shannon expansion from the truth table up to 7 variables; replay of the construction history in the fresh builder for 8-245 variables, smoothed diagrams and the top-down variant), exact weights. The oracle does not judge correctness of the fresh answer. Also: serialize and statistics queries, special weight values (0, 1, -1, equal low/high, field elements 0/1/p-1), argument words biased to empty/singleton/full lists, conditioning marathons and counter-period histories on one builder, top-down stores beyond 8192 nodes."),
  "C11": dict(section="5 C11", text="Seeded simulation in which one operation history is executed in lock-step on seven builders (two BDD orders, compressed and uncompressed SDDs under two vtrees, a hash-identified SDD builder, a standard and a hash-identified top-down builder under two decision orders): every result's semantic hash under the three exported 32/64-bit primes must equal the defining sum over the models of the function the diagram denotes (library's public weight map), negations hash to 1-h, cached hashes requested at random points of the history equal recomputation, and the hash-identified builders must return the function the operation names and report eq for equal functions, and at end of run no two stored nodes of a hash-identified builder may denote the same or complementary function; the unique table's identity-by-hash mode (get_or_insert_by_hash(..,true)/get_by_hash) is also driven directly with simulator-chosen hashes. Tiny tables, cache forgetting and early growth are injected. Sampling evidence.",
-             note="Trusted: truth-table model, defining-sum implementation (128-bit modular arithmetic), diagram readers. Only equal-function => equal-hash is asserted. <= 6 variables in the lock-step histories; rare scenarios: literals of a hash-identified builder over 20000-100000 variables, and a 17-20 variable CNF compiled by the hash-identified SDD builder compared with the BDD."),
+             note="Trusted: truth-table model, defining-sum implementation (128-bit modular arithmetic), diagram readers. Only equal-function => equal-hash is asserted. <= 6 variables in the lock-step histories; rare scenarios: literals of a hash-identified builder over 20000-100000 variables, and a 17-20 variable CNF compiled by the hash-identified SDD builder compared with the BDD. One run in four hashes under caller-made weight maps (low + high = 1, built from 0/1, p-1/2, the halves, 3/p-2); statistics calls and clone+edit+get_or_insert on the hash-identified top-down store are part of the histories."),
  "C18": dict(section="5 C18", text="Seeded simulation of C-API call sequences against the real extern \"C\" symbols (linked from the rlib) with a native RobddBuilder twin receiving the corresponding Rust calls: same truth table and canonical structure for every result, same eq / predicates / top variable / children, same node and model counts, bit-identical real / complex / polynomial weighted counts with weight tables built and read back through the C setters/getters, same JSON and debug strings; the cnf_from_dimacs -> min-fill order -> dtree -> vtree -> SDD compile/count and top-down compile/count pipeline is compared stage by stage with the native sequence. Panics inside extern \"C\" abort the process; the supervisor isolates and reports the run. Sampling evidence.",
-             note="Trusted: the twin construction (which native call corresponds to which C function), truth-table model. The harness dereferences the boxed BddPtr results to read the diagrams. <= 7 variables with a truth-table model; rare 20-22 variable runs with the native twin as the only reference."),
+             note="Trusted: the twin construction (which native call corresponds to which C function), truth-table model. The harness dereferences the boxed BddPtr results to read the diagrams. <= 7 variables with a truth-table model; rare 20-22 variable runs with the native twin as the only reference. Coefficient buffers may alias; strings returned earlier are re-read after later calls; a scratch value may be parked on a child while the parent is counted; special weight values."),
 }
 
 NA = {
